@@ -347,13 +347,66 @@ def classify_exception(e):
   return CRASH
 
 
-def call_servicer(servicer, call):
-  """Executes one call. Returns (outcome class, abstract response | error text, raw)."""
+class _Abort(Exception):
+  """What grpc's ServicerContext.abort raises inside a handler."""
+
+
+class WireContext:
+  """In-process stand-in for grpc.ServicerContext with the semantics a remote
+  client observes: set_code/set_details record the status, abort() terminates
+  the handler with that status, and any *other* exception escaping the handler
+  reaches the client as StatusCode.UNKNOWN."""
+
+  def __init__(self):
+    self._code = None
+    self._details = None
+
+  def set_code(self, code):
+    self._code = code
+
+  def set_details(self, details):
+    self._details = details
+
+  def code(self):
+    return self._code
+
+  def details(self):
+    return self._details
+
+  def abort(self, code, details):
+    self._code, self._details = code, details
+    raise _Abort()
+
+  def is_active(self):
+    return True
+
+
+def call_servicer(servicer, call, wire=False):
+  """Executes one call. Returns (outcome class, abstract response | error text, raw).
+
+  wire=True passes a WireContext, i.e. the handler runs as it would inside a gRPC
+  server and the outcome class is the status a remote client would see.
+  """
   op, req = build_request(call)
+  if not wire:
+    try:
+      resp = getattr(servicer, op)(req)
+    except Exception as e:  # pylint: disable=broad-except
+      return classify_exception(e), f'{type(e).__name__}: {str(e)[:200]}', e
+    return OK, abs_response(op, resp), resp
+  ctx = WireContext()
   try:
-    resp = getattr(servicer, op)(req)
+    resp = getattr(servicer, op)(req, ctx)
+  except _Abort:
+    cls = _CODE.get(ctx.code(), 'STATUS:' + str(ctx.code()))
+    if ctx.code() == grpc.StatusCode.UNKNOWN:
+      cls = 'STATUS:UNKNOWN'
+    return cls, f'aborted: {str(ctx.details())[:200]}', None
   except Exception as e:  # pylint: disable=broad-except
-    return classify_exception(e), f'{type(e).__name__}: {str(e)[:200]}', e
+    # an uncaught handler exception: the client sees UNKNOWN whatever was raised
+    return 'STATUS:UNKNOWN', f'{type(e).__name__}: {str(e)[:200]}', e
+  if ctx.code() not in (None, grpc.StatusCode.OK):
+    return _CODE.get(ctx.code(), 'STATUS:' + str(ctx.code())), f'status set: {ctx.details()}', resp
   return OK, abs_response(op, resp), resp
 
 
